@@ -150,8 +150,24 @@ pub fn gen_case(r: &mut Rng, tier: Tier) -> Case {
         let at = r.below(items.len() + 1);
         items.insert(at, (k, v));
     }
+    // now and then a chain of containers deeper than any guard a walk might carry, with spaced text at the bottom
+    let deep = !custom && r.chance(1, 14);
+    if deep {
+        let mut v = json!({"leaf": leaf16(r), "list": [leaf16(r), {"k": leaf16(r)}]});
+        for d in 0..r.range(30, 62) {
+            v = if (d + r.below(2)) % 3 == 0 { json!([v]) } else { json!({"n": v, "s": d}) };
+        }
+        items.push(("deep_chain".into(), v));
+    }
+    // ... and twin subtrees (the same names and values at two places), for queues that repeat a salt
+    let repeats = r.chance(1, 7);
+    if repeats {
+        let twin = json!({"country": "DE", "zip": leaf16(r), "tags": ["a", "a"]});
+        items.push(("home_address".into(), twin.clone()));
+        items.push(("work_address".into(), twin));
+    }
     let claims = Value::Object(items.into_iter().collect());
-    let strategy = if custom {
+    let strategy = if deep { Strategy::All } else if custom {
         loop {
             let s = gen_strategy(r, &claims, true);
             if matches!(s, Strategy::Custom(_)) {
@@ -177,7 +193,32 @@ pub fn gen_case(r: &mut Rng, tier: Tier) -> Case {
     };
     let fmt = if r.chance(1, 2) { Fmt::Compact } else { Fmt::Json };
     let spare = r.range(1, 4);
-    let queue = gen_queue(r, n_positions(&claims) + spare);
+    let mut queue = gen_queue(r, n_positions(&claims) + spare);
+    if repeats {
+        // the property quantifies over ALL queues that are long enough: one salt may occur several times (clause 1 still holds;
+        // two identical disclosures may then arise, which holder and verifier refuse as a repeated digest — not judged)
+        match r.below(3) {
+            0 => {
+                let s = queue[0].clone();
+                for q in queue.iter_mut() {
+                    *q = s.clone();
+                }
+            }
+            1 => {
+                for j in 1..queue.len() {
+                    if r.chance(1, 3) {
+                        queue[j] = queue[r.below(j)].clone();
+                    }
+                }
+            }
+            _ => {
+                let n = queue.len();
+                for j in 0..n {
+                    queue[j] = queue[j % 3.min(n)].clone();
+                }
+            }
+        }
+    }
     let extra = if r.chance(1, 2) { 0 } else { r.range(1, 3) };
     Case { args: IssueArgs { claims, strategy, holder, decoy: r.chance(1, 4), fmt, key, alg, queue: Some(queue) }, extra }
 }
@@ -448,35 +489,43 @@ fn judge(ctx: &mut Ctx, ex: &Exec, resp: &[Value]) {
         ctx.count("byte_identity.not_applicable(decoys on)");
     }
     // (3) value preservation: the harness's own unpacking, then holder + verifier
-    let expected = with_cnf(&args.claims, args.holder);
-    let mut by_digest = HashMap::new();
-    for (d, dec) in rb.parts.disclosures.iter().zip(&rb.decoded) {
-        by_digest.insert(hash(d), dec.clone());
-    }
-    match rb.parts.payload() {
-        Some(pl) => {
-            let mut u = Unpack { by_digest: &by_digest, used: HashSet::new(), problems: vec![] };
-            let rebuilt = u.go(&pl, true);
-            problems.extend(u.problems.iter().cloned());
-            if rebuilt != expected {
-                problems.push("putting every disclosed [salt, name?, value] back at the position of its digest does not give the original claims: a name or value was changed".into());
-            }
-        }
-        None => problems.push("payload is not base64url(JSON)".into()),
-    }
     let mut recovered = Value::Null;
-    match (&ex.hold, &ex.ver) {
-        (Some(_), Some(vr)) => match &vr.out {
-            Outcome::Ok(v) => {
-                recovered = v.clone();
-                if *v != expected {
-                    problems.push("holder (everything selected) + verifier do not return the original claims".into());
+    let expected = with_cnf(&args.claims, args.holder);
+    'vp: {
+        let distinct: HashSet<&String> = rb.parts.disclosures.iter().collect();
+        if distinct.len() != rb.parts.disclosures.len() {
+            // a repeated salt met an identical name and value: two identical disclosures, one digest twice (refused downstream)
+            ctx.count("value_preservation.not_judged(identical disclosures from a repeated salt)");
+            break 'vp;
+        }
+        let mut by_digest = HashMap::new();
+        for (d, dec) in rb.parts.disclosures.iter().zip(&rb.decoded) {
+            by_digest.insert(hash(d), dec.clone());
+        }
+        match rb.parts.payload() {
+            Some(pl) => {
+                let mut u = Unpack { by_digest: &by_digest, used: HashSet::new(), problems: vec![] };
+                let rebuilt = u.go(&pl, true);
+                problems.extend(u.problems.iter().cloned());
+                if rebuilt != expected {
+                    problems.push("putting every disclosed [salt, name?, value] back at the position of its digest does not give the original claims: a name or value was changed".into());
                 }
             }
-            other => problems.push(format!("the verifier rejected the full presentation: {}", other.describe())),
-        },
-        (Some(h), None) => problems.push(format!("the holder did not present everything: {}", h.calls.first().map(|c| c.out.describe()).unwrap_or(h.new.describe()))),
-        _ => {}
+            None => problems.push("payload is not base64url(JSON)".into()),
+        }
+        match (&ex.hold, &ex.ver) {
+            (Some(_), Some(vr)) => match &vr.out {
+                Outcome::Ok(v) => {
+                    recovered = v.clone();
+                    if *v != expected {
+                        problems.push("holder (everything selected) + verifier do not return the original claims".into());
+                    }
+                }
+                other => problems.push(format!("the verifier rejected the full presentation: {}", other.describe())),
+            },
+            (Some(h), None) => problems.push(format!("the holder did not present everything: {}", h.calls.first().map(|c| c.out.describe()).unwrap_or(h.new.describe()))),
+            _ => {}
+        }
     }
     if !problems.is_empty() {
         ctx.violation(
@@ -510,7 +559,9 @@ fn judge(ctx: &mut Ctx, ex: &Exec, resp: &[Value]) {
             // consumption order: the i-th salt of the queue goes to the claim the model gives it to
             let q = a.queue.clone().unwrap_or_default();
             let md: Vec<Option<Value>> = m.get("disclosures").and_then(Value::as_array).map(|x| x.iter().map(|d| d.as_str().and_then(decode_disclosure)).collect()).unwrap_or_default();
-            for (i, d) in md.iter().enumerate() {
+            // (a salt that occurs twice in the queue cannot be traced to one claim: the byte comparisons above stand alone then)
+            let q_distinct = q.iter().collect::<HashSet<_>>().len() == q.len();
+            for (i, d) in md.iter().enumerate().filter(|_| q_distinct) {
                 let mine = read.salts.iter().position(|s| Some(s) == q.get(i)).map(|k| &read.decoded[k]);
                 if mine != d.as_ref() {
                     diffs.push(format!("the salt at queue position {} is not used for the claim the model uses it for", i));
@@ -575,7 +626,7 @@ fn case_from_replay(ctx: &mut Ctx, path: &str) -> Option<Case> {
 
 pub fn run(ctx: &mut Ctx, replay: Option<&str>) {
     ctx.rule = "claims (usual trees plus members whose names and values are built from , : [ ] { } \" \\ runs of spaces, \", \" \": \" sequences, escapes, non-ASCII and non-BMP characters, numbers, nested and empty containers) \
-                x {NoSD, TopLevel, AllLevels, Custom} x {compact, JSON} x {HS256, EdDSA, ES256} x decoys (1/4) x salt queues of pairwise distinct base64url-alphabet strings; every case is issued three times: \
+                x {NoSD, TopLevel, AllLevels, Custom} x {compact, JSON} x {HS256, EdDSA, ES256} x decoys (1/4) x salt queues of base64url-alphabet strings (pairwise distinct, or with repeated salts over claim sets with twin subtrees: then only the issuance clauses are judged when identical disclosures arise); deep chains of 30-60 containers now and then; every case is issued three times: \
                 with an ample queue, then twice with the same queue of exactly (disclosures + 0..3) salts. non-trivial = at least one hidden string value contains one of , : [ \" \\ or two consecutive spaces; distinct by claims, strategy, queue and settings".into();
     if !cfg!(feature = "mock") {
         ctx.notes.push("this harness was built without the feature `mock` (sd-jwt-rs/mock_salts): C16 was not run; use ./check C16".into());
